@@ -442,8 +442,11 @@ TYPED = [("int", 3), ("float", 0.5), ("int8", np.int8(-3)), ("uint8", np.uint8(2
          ("uint64", np.uint64(7)), ("int64", np.int64(-2)), ("f16", np.float16(0.5)), ("f32", np.float32(1.5)),
          ("f64", np.float64(-2.0)), ("0d", np.array(2.0)), ("0dint", np.array(3)), ("0duint8", np.array(250, dtype=np.uint8)),
          ("bool", True), ("npbool", np.bool_(True))]
-# 1e-300 cannot go through the driver (Alg.ratToFloat overflows its denominator): 1e-280 is the smallest magnitude used
-MAGNITUDES = [0.0, 1e-280, -1e-12, 1e-9, 9.9e-9, 1.1e-8, 1e-7, 1e8, 1e16, -1e16, 3e20, 2.0 ** 60]
+# Magnitudes (checklist 1) are DYADIC so that optyx's float arithmetic on them (`Constant(c * e.value)`, `k - 1`) is exact and the
+# structural comparison with the model's exact rationals stays exact: 2^-930 (≈1e-280; 1e-300 would overflow the denominator in
+# the driver's Alg.ratToFloat), 2^-40 ≈ 9e-13, 2^-30 ≈ 9.3e-10, 2^-27 ≈ 7.5e-9 and 2^-26 ≈ 1.5e-8 (either side of np.isclose's
+# atol 1e-8), 2^-23 ≈ 1.2e-7, 2^27 ≈ 1.3e8, 2^53 ≈ 9.0e15 and 2^54 ≈ 1.8e16 (either side of the sanitiser's 1e16), 2^68 ≈ 3e20
+MAGNITUDES = [0.0, 2.0 ** -930, -2.0 ** -40, 2.0 ** -30, 2.0 ** -27, 2.0 ** -26, 2.0 ** -23, 2.0 ** 27, 2.0 ** 53, -2.0 ** 54, 2.0 ** 68, 1e16]
 
 
 def extended_wrappers(U):
@@ -579,17 +582,19 @@ def audit_nodes(rng, U):
             ("A.T@x[0:2]", lambda: A.T @ x[0:2]), ("x*y", lambda: x * y), ("x**2", lambda: x ** 2), ("sin(x)", lambda: sin(x))]
     for mn, mk in mvps:
         add(f"es:{mn}", lambda: mk().sum())
+        if mn in ("x**2", "sin(x)"):
+            continue   # ElementwisePower / ElementwiseUnary are not VectorExpressions: only their .sum() is an expression
         add(f"dot:{mn}.x", lambda: Vc.DotProduct(mk(), x))
         add(f"dot:x.{mn}", lambda: Vc.DotProduct(x, mk()))
         add(f"lc:{mn}", lambda: Vc.LinearCombination(np.array([1.0, -2.0, 0.5]), mk()))
         add(f"l2:{mn}", lambda: Vc.L2Norm(mk()))
         add(f"qf:{mn}", lambda: Mx.QuadraticForm(mk(), Q3))
     # magnitudes and numeric types of stored numbers
-    mags = np.array([1e-280, -1e-12, 1e16])
+    mags = np.array([2.0 ** -930, -2.0 ** -40, 2.0 ** 54])
     add("lc:mag1", lambda: Vc.LinearCombination(mags, x))
-    add("lc:mag2", lambda: Vc.LinearCombination(np.array([3e20, 0.0, 9.9e-9]), x))
-    add("lc:mag3", lambda: Vc.LinearCombination(np.array([1.1e-8, 1e8, -1e-7]), x))
-    add("qf:mag", lambda: Mx.QuadraticForm(x, np.array([[1e-12, 1e8, 0.0], [0.0, -1e16, 1e-9], [3e20, 0.0, 1.0]])))
+    add("lc:mag2", lambda: Vc.LinearCombination(np.array([2.0 ** 68, 0.0, 2.0 ** -27]), x))
+    add("lc:mag3", lambda: Vc.LinearCombination(np.array([2.0 ** -26, 2.0 ** 27, -2.0 ** -23]), x))
+    add("qf:mag", lambda: Mx.QuadraticForm(x, np.array([[2.0 ** -40, 2.0 ** 27, 0.0], [0.0, -2.0 ** 54, 2.0 ** -30], [2.0 ** 68, 0.0, 1.0]])))
     for tag, arr in (("list", [1, 2, 3]), ("int64", np.array([1, -2, 3])), ("uint8", np.array([200, 100, 250], dtype=np.uint8)),
                      ("int8", np.array([-100, 100, 127], dtype=np.int8)), ("f32", np.array([0.5, 1.5, -2.0], dtype=np.float32)),
                      ("f16", np.array([0.5, 1.5, -2.0], dtype=np.float16)), ("bool", np.array([True, False, True])),
@@ -600,7 +605,7 @@ def audit_nodes(rng, U):
                    ("list", [[1.0, 2.0, 0.0], [0.5, 1.0, -1.0], [0.0, 3.0, 2.0]])):
         add(f"qf:{tag}", lambda: Mx.QuadraticForm(x, Q))
     for tag, k in (("npint", np.int64(2)), ("npint3", np.int32(3)), ("f32", np.float32(0.5)), ("bool", True), ("uint8", np.uint8(3)), ("10", 10), ("-3", -3),
-                   ("0.25", 0.25), ("7.5", 7.5), ("1e-9", 1e-9), ("1+1e-9", 1.0 + 1e-9), ("2-", 2.0 - 2.0 ** -40)):
+                   ("0.25", 0.25), ("7.5", 7.5), ("2^-30", 2.0 ** -30), ("1+2^-30", 1.0 + 2.0 ** -30), ("2-", 2.0 - 2.0 ** -40)):
         add(f"ps[{tag}]:x", lambda: Vc.VectorPowerSum(x, k))
         add(f"ps[{tag}]:api", lambda: (x ** k).sum())
     # the same compound sub-expression OBJECT at several places (DAG) and a Parameter inside vector nodes
@@ -714,8 +719,8 @@ def cell_cases(rng):
     for ni, (tag, node) in enumerate(allnodes):
         own = own_vars(node)
         for wi, (wn, wf) in enumerate(ext):
-            if not FULL[0] and (ni + wi) % 16 != 0:
-                continue   # quick tier: every wrapper meets every node *kind* (≥ 9 nodes per kind), not every node
+            if (ni + wi) % (4 if FULL[0] else 16) != 0:
+                continue   # thorough tier: a quarter of the product; quick tier: every wrapper meets every node *kind* (≥ 9 nodes per kind), not every node
             try:
                 cases.append((f"{tag}|own|{wn}", [wf(node)], list(own), U))
             except Exception as ex:  # noqa: BLE001
@@ -845,17 +850,75 @@ def real_gradient(e, V):
     return CC.compile_gradient(e, V)
 
 
+def model_regular(e, point) -> bool:
+    """the part of `Regular` (Lemmas/Regular.lean) that the shared dual-number interpreter is more permissive about:
+    a power whose exponent is not a literal Constant (a compound constant such as Constant(1)+Constant(1), a Parameter, an
+    expression) needs a POSITIVE base — optyx differentiates it as exp(g·log f), whose symbolic form is singular at f ≤ 0
+    even when the function itself is smooth there (x ** (1+1) at 0).  Such points are outside C03 / C17 (they are C19's)."""
+    from optyx.core.expressions import BinaryOp, Constant, UnaryOp
+
+    stack = [e]
+    while stack:
+        n = stack.pop()
+        if isinstance(n, BinaryOp):
+            if n.op == "**" and not isinstance(n.right, Constant):
+                try:
+                    base = oracle.prim(oracle.ref_eval(n.left, point))
+                except Exception:  # noqa: BLE001
+                    return False
+                if not base > oracle.MARGIN:
+                    return False
+            stack += [n.left, n.right]
+        elif isinstance(n, UnaryOp):
+            stack.append(n.operand)
+        else:
+            for attr in ("vector", "left", "right", "expression", "matrix"):
+                sub = getattr(n, attr, None)
+                ex = getattr(sub, "_expressions", None)
+                if ex is not None:
+                    for row in ex:
+                        stack += list(row) if isinstance(row, (list, tuple)) else [row]
+    return True
+
+
+def fd_grad(e, point, name):
+    """fallback reference for node kinds the dual-number interpreter does not know (element-wise vector nodes as
+    operands): Richardson-extrapolated central differences of the expression's own `evaluate` — independent of every
+    derivative routine"""
+    def f(t):
+        p = dict(point); p[name] = t
+        return float(np.asarray(quiet(lambda: e.evaluate(p))))
+    x0 = point[name]
+    h = 1e-4 * max(1.0, abs(x0))
+    d1 = (f(x0 + h) - f(x0 - h)) / (2 * h)
+    d2 = (f(x0 + h / 2) - f(x0 - h / 2)) / h
+    return (4 * d2 - d1) / 3
+
+
 def oracle_rows(es, V, xs):
     """dual-number Jacobian at the point, or None per row when the point is not regular for that row"""
     point = {v.name: float(a) for v, a in zip(V, xs)}
     out = []
     for e in es:
         try:
+            if not model_regular(e, point):
+                raise oracle.NotRegular("non-literal exponent over a non-positive base")
             row = [oracle.ref_grad(e, point, v.name) for v in V]
             if not all(math.isfinite(a) and abs(a) < 1e8 for a in row):
                 row = None
         except (oracle.NotRegular, OverflowError, ZeroDivisionError, ValueError, KeyError):
             row = None
+        except (AttributeError, TypeError):
+            # a node kind outside the reference interpreter: finite differences of evaluate, ordinary magnitudes only
+            try:
+                if all(1e-3 < abs(a) < 1e3 for a in xs):
+                    row = [fd_grad(e, point, v.name) for v in V]
+                    if not all(math.isfinite(a) and abs(a) < 1e6 for a in row):
+                        row = None
+                else:
+                    row = None
+            except Exception:  # noqa: BLE001
+                row = None
         out.append(row)
     return out
 
@@ -864,8 +927,8 @@ def well_conditioned(es_i, V, xs, want_row):
     """conditioning guard: the reference itself must not move under a 1e-9 perturbation"""
     try:
         pert = {v.name: float(a) * (1 + 1e-9) + 1e-12 for v, a in zip(V, xs)}
-        row2 = [oracle.ref_grad(es_i, pert, v.name) for v in V]
-        return all(oracle.close(a, b, rtol=1e-4, atol=1e-6) for a, b in zip(want_row, row2))
+        row2 = oracle_rows([es_i], V, [pert[v.name] for v in V])[0]
+        return row2 is not None and all(oracle.close(a, b, rtol=1e-4, atol=1e-6) for a, b in zip(want_row, row2))
     except Exception:  # noqa: BLE001
         return False
 
@@ -921,6 +984,14 @@ def check_numeric(es, V, xs):
             else:
                 skipped += 1
     return fails, checked, skipped
+
+
+def safe_payload(es, V, xs, params=None):
+    """payload_of, or a repr-only description when the expressions are outside the Lean / replay syntax"""
+    try:
+        return payload_of(es, V, xs, all_params(es) if params is None else params)
+    except Unsupported:
+        return {"exprs_repr": [repr(e)[:200] for e in es], "V_names": [v.name for v in V], "x": [float(a) for a in xs]}
 
 
 def payload_of(es, V, xs, params):
@@ -1119,7 +1190,7 @@ def run(ctx) -> core.Report:
                            "(expressions, V) whose Jacobian is not identically the constant 0")
     FULL[0] = thorough
     AUDIT_SKIPPED.clear()
-    cases = cell_cases(rng) + random_cases(rng, 20000 if thorough else 700, 5 if thorough else 3)
+    cases = cell_cases(rng) + random_cases(rng, 8000 if thorough else 700, 5 if thorough else 3)
     for k, v in AUDIT_SKIPPED.items():
         rep.skipped[k] = rep.skipped.get(k, 0) + v
 
@@ -1247,7 +1318,7 @@ def run(ctx) -> core.Report:
                 f["tag"] = tag
                 rep.oracle_failures.append(f)
         # call sequences at regular points (one callable, several requests; answers must not depend on history)
-        if es and V and covered and (thorough or "orders" not in tag or rng.random() < 0.25):
+        if es and V and covered and (thorough or zlib.crc32(tag.encode()) % 4 == 0):
             q = rand_x(rng, len(V), True)
             for kind in (("jac", "grad") if single else ("jac",)):
                 sf, n_calls = check_sequences(kind, es, V, light_sequences(xs, q, len(params)))
